@@ -70,6 +70,13 @@ pub fn check_close(c: &mut Ctx, s: &Sess, m: &Merchant, rng: &mut (impl RngCore 
 
 fn stage_balances_ok(c: &mut Ctx, s: &Sess, expect: (u64, u64), whence: &str) {
     c.eval();
+    // the stage names the channel it was opened for
+    if s.stage.channel_id() != Some(s.cid.to_bytes()) {
+        c.violation(
+            &format!("C04 stage-reports-another-channel-id stage={}", s.stage.name()),
+            json!({"whence": whence}),
+        );
+    }
     if s.stage.balances() != Some(expect) {
         c.violation(
             &format!("C04 balance-differs-from-ledger stage={}", s.stage.name()),
